@@ -7,8 +7,18 @@ use std::any::Any;
 use std::panic::{catch_unwind, AssertUnwindSafe};
 use std::path::Path;
 
+thread_local! {
+    static IN_GUARD: std::cell::Cell<u32> = const { std::cell::Cell::new(0) };
+}
+
+/// Panics of the code under test (inside `guarded`) are data and stay silent; a panic of the harness itself is
+/// a tool error and is printed.
 pub fn quiet_panics() {
-    std::panic::set_hook(Box::new(|_| {}));
+    std::panic::set_hook(Box::new(|info| {
+        if IN_GUARD.with(|g| g.get()) == 0 {
+            eprintln!("harness panic: {info}");
+        }
+    }));
 }
 
 pub fn panic_text(e: Box<dyn Any + Send>) -> String {
@@ -23,7 +33,10 @@ pub fn panic_text(e: Box<dyn Any + Send>) -> String {
 
 /// Run `f`, turning a panic into Err(text).
 pub fn guarded<T>(f: impl FnOnce() -> T) -> Result<T, String> {
-    catch_unwind(AssertUnwindSafe(f)).map_err(panic_text)
+    IN_GUARD.with(|g| g.set(g.get() + 1));
+    let r = catch_unwind(AssertUnwindSafe(f)).map_err(panic_text);
+    IN_GUARD.with(|g| g.set(g.get() - 1));
+    r
 }
 
 /// A slice predicate, by name (the same finite family the specification uses).
